@@ -31,7 +31,49 @@ func genAuxPow(r *hlib.Rng) *types.AuxPow {
 	if branch == nil {
 		branch = [][]byte{}
 	}
-	return types.NewAuxPow(types.Kawpow, types.NewAuxPowHeader(hdr), r.Bytes(r.Intn(40)), r.Bytes(r.Intn(70)), branch, cb)
+	// auxpow2, signature and transaction are `optional bytes` of a hashed message: absent (nil), present and empty, and
+	// non-empty are three different encodings and three different block hashes; every one of them is generated on purpose
+	// (the KawPow / SHA templates of the miner carry a present-and-empty auxpow2)
+	// (normal form: header and transaction are required -- WorkObjectHeader.ProtoDecode drops an AuxPow whose coinbase
+	// transaction is absent -- so the transaction is never nil here, only empty or set)
+	tx := cb
+	if r.Chance(15) {
+		tx = r.Bytes(r.Intn(60))
+	}
+	// nil is left to the work-object-header generator (genWoHeaderMon): CopyAuxPow turns a nil byte string into an empty
+	// one (finding woheader/kawpow/copy/...), which would otherwise surface under the generic signatures of every monitor
+	// that copies a header
+	return types.NewAuxPow(types.Kawpow, types.NewAuxPowHeader(hdr), genPresentBytes(r, 40), genPresentBytes(r, 70), branch, tx)
+}
+
+// genPresentBytes: present-and-empty or non-empty
+func genPresentBytes(r *hlib.Rng, max int) []byte {
+	if r.Chance(35) {
+		return []byte{}
+	}
+	return r.Bytes(1 + r.Intn(max))
+}
+
+// genOptBytes: nil / empty-but-present / non-empty, the three states of an optional bytes field
+func genOptBytes(r *hlib.Rng, max int) []byte {
+	switch r.Pick(2, 3, 5) {
+	case 0:
+		return nil
+	case 1:
+		return []byte{}
+	}
+	return r.Bytes(1 + r.Intn(max))
+}
+
+// optState names the state of an optional bytes field; nil and empty are different states
+func optState(b []byte) string {
+	if b == nil {
+		return "nil"
+	}
+	if len(b) == 0 {
+		return "empty"
+	}
+	return "set"
 }
 
 func genPowShare(r *hlib.Rng) *types.PowShareDiffAndCount {
@@ -160,6 +202,30 @@ func genWoHeaderMon(c *ctx) *gen {
 	return &gen{kind: "woheader", names: []string{"pre", "transition", "kawpow"}, run: func(c *ctx, name string, r *hlib.Rng) {
 		loc := genLoc(r)
 		wh := genWoHeader(r, loc, name)
+		if name == "kawpow" && c.cur.Seed == corpusSeed {
+			// fixed corpus: every state (absent / present-and-empty / set) of the optional byte strings of the AuxPow
+			states := [][]byte{nil, {}, {0xab, 0xcd}}
+			for _, a2 := range states {
+				for _, sg := range states {
+					for _, tx := range [][]byte{{}, wh.AuxPow().Transaction()} { // nil: outside the normal form (required field)
+						w := types.CopyWorkObjectHeader(wh)
+						ap := wh.AuxPow()
+						w.SetAuxPow(types.NewAuxPow(ap.PowID(), ap.Header(), a2, sg, ap.MerkleBranch(), tx))
+						c.checkWoHeader(name, r, loc, w)
+					}
+				}
+			}
+		}
+		if name == "kawpow" && c.cur.Seed != corpusSeed && r.Chance(40) {
+			ap := wh.AuxPow()
+			wh.SetAuxPow(types.NewAuxPow(ap.PowID(), ap.Header(), genOptBytes(r, 40), genOptBytes(r, 70), ap.MerkleBranch(), ap.Transaction()))
+		}
+		c.checkWoHeader(name, r, loc, wh)
+	}}
+}
+
+func (c *ctx) checkWoHeader(name string, r *hlib.Rng, loc common.Location, wh *types.WorkObjectHeader) {
+	{
 		hash, seal := wh.Hash(), wh.SealHash()
 		view := jsonOf(wh.RPCMarshalWorkObjectHeader("v2"))
 		b, pe := marshalWh(wh)
@@ -183,6 +249,31 @@ func genWoHeaderMon(c *ctx) *gen {
 			if b2, _ := marshalWh(y); !bytes.Equal(b, b2) {
 				c.fail(sig+"proto/reencode-differs", fmt.Sprintf("%x\n%x", b, b2))
 			}
+			// optional byte strings: absent and present-and-empty are different encodings (and hashes); the state must survive
+			if a, d := wh.AuxPow(), y.AuxPow(); a != nil && d != nil {
+				for _, f := range []struct {
+					n    string
+					x, y []byte
+				}{{"auxpow2", a.AuxPow2(), d.AuxPow2()}, {"signature", a.Signature(), d.Signature()}, {"transaction", a.Transaction(), d.Transaction()}} {
+					c.rep.Count("auxpow-opt:" + f.n + ":" + optState(f.x))
+					if optState(f.x) != optState(f.y) {
+						c.fail(sig+"proto/optional-bytes-state-differs/"+f.n, fmt.Sprintf("%s was %s, decoded as %s", f.n, optState(f.x), optState(f.y)))
+					}
+				}
+			} else if (a == nil) != (d == nil) {
+				c.fail(sig+"proto/auxpow-presence-differs", "AuxPow present on one side only")
+			}
+		}
+		// an in-memory copy is the same object: same encoding, same identity
+		if cp := types.CopyWorkObjectHeader(wh); cp.Hash() != hash || cp.SealHash() != seal {
+			cls := ""
+			if a, d := wh.AuxPow(), cp.AuxPow(); a != nil && d != nil &&
+				(optState(a.AuxPow2()) != optState(d.AuxPow2()) || optState(a.Signature()) != optState(d.Signature()) || optState(a.Transaction()) != optState(d.Transaction())) {
+				cls = "/auxpow-nil-bytes-become-empty"
+			}
+			c.fail(sig+"copy/hash-differs"+cls, fmt.Sprintf("CopyWorkObjectHeader changes the identity: hash %s vs %s, seal %s vs %s", hash.Hex(), cp.Hash().Hex(), seal.Hex(), cp.SealHash().Hex()))
+		} else if cb, _ := marshalWh(cp); !bytes.Equal(cb, b) {
+			c.fail(sig+"copy/encoding-differs", "CopyWorkObjectHeader changes the encoding")
 		}
 		c.protoCheck(c.msgByGo(pe), pe.ProtoReflect(), "woheader "+name)
 		// identity: (Hash, SealHash) -- after the fork Hash() is the hash of the AuxPow alone, which commits to
@@ -200,7 +291,7 @@ func genWoHeaderMon(c *ctx) *gen {
 			}
 			c.rep.Count("mutation:woheader." + muts[k].name)
 		}
-	}}
+	}
 }
 
 // ---------- work objects in each view ----------
@@ -590,12 +681,14 @@ func genStorageMon(c *ctx) *gen {
 // ---------- p2p envelopes ----------
 
 func genP2PMon(c *ctx) *gen {
-	return &gen{kind: "p2p", names: []string{"request-hash", "request-number", "response-hash", "response-header"}, run: func(c *ctx, name string, r *hlib.Rng) {
+	return &gen{kind: "p2p", names: []string{"request-hash", "request-number", "response-hash", "response-header", "response-block", "response-blocks"}, run: func(c *ctx, name string, r *hlib.Rng) {
 		loc := genLoc(r)
 		id := uint32(r.Next())
 		sig := "p2p/" + name + "/"
 		c.rep.Nontrivial(fmt.Sprintf("p2p/%s/%d", name, id%64))
 		switch name {
+		case "response-block", "response-blocks":
+			c.p2pBlocks(name, r, loc, id)
 		case "request-hash", "request-number":
 			var req interface{}
 			h := genHash(r)
@@ -684,4 +777,102 @@ func genP2PMon(c *ctx) *gen {
 			}
 		}
 	}}
+}
+
+// p2pBlocks: the block-carrying responses (a single WorkObjectBlockView, and the block-range answer
+// []*WorkObjectBlockView with 0..4 DISTINCT blocks; the fixed corpus uses 3). Every element must come back as itself
+// (hash, body, re-encoding), in order, the decoded response must re-encode to the bytes that were sent, and the decoded
+// elements must be distinct objects that share no memory (a decoder that reuses one element object for the whole list
+// returns n aliases of the last block).
+func (c *ctx) p2pBlocks(name string, r *hlib.Rng, loc common.Location, id uint32) {
+	sig := "p2p/" + name + "/"
+	n := 1
+	if name == "response-blocks" {
+		n = r.Intn(5)
+		if c.cur.Seed == corpusSeed {
+			n = 3
+		}
+	}
+	var sent []*types.WorkObjectBlockView
+	for i := 0; i < n; i++ {
+		sent = append(sent, &types.WorkObjectBlockView{WorkObject: genWorkObject(r, loc)})
+	}
+	c.rep.Count(fmt.Sprintf("p2p-blocks:%d", n))
+	var data, typ interface{}
+	if name == "response-block" {
+		data, typ = sent[0], &types.WorkObjectBlockView{}
+	} else {
+		data, typ = sent, []*types.WorkObjectBlockView{}
+	}
+	wire, err := pb.EncodeQuaiResponse(id, loc, typ, data)
+	if err != nil {
+		c.fail(sig+"encode-error", err.Error())
+		return
+	}
+	msg, err := pb.DecodeQuaiMessage(wire)
+	if err != nil {
+		c.fail(sig+"decode-own-bytes", err.Error())
+		return
+	}
+	gid, gdata, err := pb.DecodeQuaiResponse(msg.GetResponse())
+	if err != nil {
+		if n == 0 {
+			return // an empty range is answered with EmptyResponse
+		}
+		c.fail(sig+"decode-response", err.Error())
+		return
+	}
+	var got []*types.WorkObjectBlockView
+	switch v := gdata.(type) {
+	case *types.WorkObjectBlockView:
+		got = []*types.WorkObjectBlockView{v}
+	case []*types.WorkObjectBlockView:
+		got = v
+	default:
+		c.fail(sig+"object-differs", fmt.Sprintf("decoded as %T", gdata))
+		return
+	}
+	if gid != id || len(got) != len(sent) {
+		c.fail(sig+"object-differs", fmt.Sprintf("id %d/%d, %d elements sent, %d decoded", id, gid, len(sent), len(got)))
+		return
+	}
+	for i := range sent {
+		if got[i] == nil || got[i].WorkObject == nil {
+			c.fail(sig+"element-missing", fmt.Sprintf("element %d of %d is nil", i, n))
+			return
+		}
+		if got[i].WorkObject.Hash() != sent[i].WorkObject.Hash() {
+			c.fail(sig+"element-hash-differs", fmt.Sprintf("element %d of %d: sent %s decoded %s", i, n, sent[i].WorkObject.Hash().Hex(), got[i].WorkObject.Hash().Hex()))
+		}
+		if a, b := woFullView(sent[i].WorkObject, types.BlockObject), woFullView(got[i].WorkObject, types.BlockObject); a != b {
+			c.fail(sig+"element-differs", fmt.Sprintf("element %d of %d:\nsent    %s\ndecoded %s", i, n, clip(a), clip(b)))
+		}
+	}
+	// the decoded elements are distinct objects with disjoint memory
+	for i := range got {
+		for j := i + 1; j < len(got); j++ {
+			if got[i] == got[j] || got[i].WorkObject == got[j].WorkObject {
+				c.fail(sig+"elements-are-one-object", fmt.Sprintf("elements %d and %d of the decoded list are the same object", i, j))
+				continue
+			}
+			var o []overlap
+			for _, x := range overlaps(regionsOf(got[i]).regs, regionsOf(got[j]).regs) {
+				if !strings.Contains(x.label, "->") { // a package-level value reached from both: the alias monitors' business (known finding QuaiTx.Value->common.Big0)
+					o = append(o, x)
+				}
+			}
+			if len(o) > 0 {
+				c.fail(sig+"elements-share-memory/"+o[0].label, fmt.Sprintf("elements %d and %d share %d regions, first %s", i, j, len(o), o[0].label))
+			}
+		}
+	}
+	// re-encoding what was decoded gives the bytes that were sent
+	var data2 interface{} = got
+	if name == "response-block" {
+		data2 = got[0]
+	}
+	if wire2, err := pb.EncodeQuaiResponse(id, loc, typ, data2); err != nil || !bytes.Equal(wire, wire2) {
+		c.fail(sig+"reencode-differs", fmt.Sprintf("re-encoding the decoded response: err %v, %d vs %d bytes", err, len(wire), len(wire2)))
+	}
+	c.guardGlobals("p2p/" + name)
 }
